@@ -114,6 +114,8 @@ def run(ctx):
     from . import c11
     trm = repo.mod(c11.TR)
     c11.prespace_forwarding(ctx, 'R01b', trm, trm.methods('LatexTokenReader'))
+    # token fields tile the token (text, pre- and post-space against pos/pos_end): shared with C11 R11e
+    c11._space_coherence(c11._Sub(ctx, 'R01b'), trm, trm.methods('LatexTokenReader'))
 
     # ------------------------------------------------------------ R01c
     for mod in repo.modules.values():
